@@ -230,6 +230,45 @@ func resolveCache(c *core.Ctx) *cacheAnchors {
 	return a
 }
 
+// delArg: whom a removal is requested for, spelled "lit{EventKey=K,Pubkey=P}" whatever the removal
+// helper's signature: one key struct (as on the baseline), or the storage key and the author as
+// two strings.
+func (a *cacheAnchors) delArg(o an.Occ) string {
+	call, ok := o.In.(*ssa.Call)
+	if !ok || a.del == nil {
+		return ""
+	}
+	if len(call.Call.Args) != 3 {
+		return occArg(o, 1)
+	}
+	ki := a.delKeyParam()
+	if ki != 1 && ki != 2 {
+		return occArg(o, 1)
+	}
+	return "lit{EventKey=" + o.Path(call.Call.Args[ki]) + ",Pubkey=" + o.Path(call.Call.Args[3-ki]) + "}"
+}
+
+// delKeyParam: for a removal helper taking (key, pubkey string), the index of the parameter
+// that is the storage key (the one evs is indexed with); 0 otherwise.
+func (a *cacheAnchors) delKeyParam() int {
+	if a.del == nil || len(a.del.Params) != 3 {
+		return 0
+	}
+	for i := 1; i <= 2; i++ {
+		if bt, ok := a.del.Params[i].Type().Underlying().(*types.Basic); !ok || bt.Kind() != types.String {
+			return 0
+		}
+	}
+	for _, d := range mapDeletesOn(a.del, "recv.evs") {
+		for i := 1; i <= 2; i++ {
+			if an.PathOf(d.Call.Args[1]) == "p:"+a.del.Params[i].Name() {
+				return i
+			}
+		}
+	}
+	return 0
+}
+
 // evParam: the access path of fn's *Event parameter (the event being added).
 func evParamOf(fn *ssa.Function) string {
 	for _, p := range fn.Params[1:] {
@@ -546,7 +585,7 @@ func runNewestWins(c *core.Ctx) {
 			if !p.Contains(o.Block()) {
 				continue
 			}
-			arg := occArg(o, 1)
+			arg := a.delArg(o)
 			seenArgs[clip(arg, 160)] = true
 			// removed under the key it is stored under: the insertion key itself, or the
 			// key function applied to the retained version found under that key
@@ -658,7 +697,7 @@ func runCapGuard(c *core.Ctx) {
 	c.Check(okDom, nil, fname(c, add), "evict/on-every-success-path", P.Pos(ev.Pos()),
 		"every path from a successful insertion to 'return true' passes the capacity test", "a path returns true after inserting without passing the capacity test")
 	// victim is taken from the small (oldest) end of the creation-time tree
-	vp := occArg(*evo, 1)
+	vp := a.delArg(*evo)
 	src := vp
 	an.Instrs(add, func(in ssa.Instruction) {
 		if call, ok := in.(*ssa.Call); ok {
